@@ -132,16 +132,19 @@ def build_obj(o, variant=0):
     N, coeffs, W = obj_arrays(o)
     if len(kvs) == 1 and variant % 2 == 1:
         kvs = kvs[0]                                 # a single KnotVector is accepted in place of a 1-tuple
+    def maybe_int(a):
+        # control points that happen to be whole numbers are often typed in as integers
+        return a.astype(np.int64) if variant % 3 == 1 and a.size and np.all(a == np.round(a)) else a
     if o['kind'] == 'bsp':
         if variant % 3 == 2 and not o['osh']:
             coeffs = coeffs.ravel()                  # flat coefficient vector (documented convenience)
-        return bspline.BSplineFunc(kvs, coeffs)
+        return bspline.BSplineFunc(kvs, maybe_int(coeffs))
     osh = tuple(o['osh'])
     if variant % 2 == 0:
         return geometry.NurbsFunc(kvs, coeffs.copy(), W.copy(), premultiplied=True)
     P = coeffs / (W.reshape(N + (1,) * len(osh)))    # control points; the constructor premultiplies
     if variant % 4 == 3 and osh:
-        return geometry.NurbsFunc(kvs, np.concatenate((P, W[..., None]), axis=-1), None)
+        return geometry.NurbsFunc(kvs, maybe_int(np.concatenate((P, W[..., None]), axis=-1)), None)
     return geometry.NurbsFunc(kvs, P, W.copy())
 
 
